@@ -113,3 +113,17 @@ package nsx
 //vc:func (*State).LoadDevice
 //vc:  invariant[C09] 1 "for _, result := range resultStruct.Results" @noFailureSoFar devFailure == old(devFailure)
 //vc:  ensures[C09] @requestFailureReported result1 == nil ==> devFailure == old(devFailure)
+
+// ---- C04: a rule is written once, under its own id ----
+// writeRule builds the URL from r.Id and then clears it ("Don't send Id
+// twice"): a second request for the same rule would go to .../rules/ with an
+// empty id. Every caller writes each rule at most once.
+//vc:func (*rulesPair).writeRule
+//vc:  requires[C04] @ruleIdKnown r.Id != ""
+//vc:  ensures[C04] r.Id == "" && (forall q *nsxRule :: { q.Id } q != r ==> q.Id == old(q.Id))
+//vc:func (*rulesPair).equalizeGroups
+//vc:  hypothesis[C04] @deviceRuleHasId ra.Id != ""
+//vc:func (*rulesPair).diffRules$2
+//vc:  hypothesis[C04] @newRulesHaveIds forall k int :: { l[k] } 0 <= k && k < len(l) ==> l[k].Id != ""
+//vc:  hypothesis[C04] @newRulesAreDistinct forall j int, k int :: { l[j], l[k] } 0 <= j && j < k && k < len(l) ==> l[j] != l[k]
+//vc:  invariant[C04] 1 "for _, ru := range l" @unwrittenRulesKeepTheirId -1 <= rangeindex && (forall k int :: { l[k] } rangeindex < k && k < len(l) ==> l[k].Id != "")
